@@ -2043,6 +2043,18 @@ type propsJSON struct {
 	MaxDownresLevel uint8
 }
 
+// maxLabelCopy returns a copy of the per-version max labels taken under the lock that the
+// background max-label updates write under, so that it can be marshalled safely.
+func (d *Data) maxLabelCopy() map[dvid.VersionID]uint64 {
+	d.mlMu.RLock()
+	defer d.mlMu.RUnlock()
+	m := make(map[dvid.VersionID]uint64, len(d.MaxLabel))
+	for k, v := range d.MaxLabel {
+		m[k] = v
+	}
+	return m
+}
+
 func (d *Data) MarshalJSON() ([]byte, error) {
 	vctx, err := datastore.NewVersionedCtxMasterLeaf(d)
 	if err != nil {
@@ -2053,7 +2065,7 @@ func (d *Data) MarshalJSON() ([]byte, error) {
 			d.Data.Data,
 			propsJSON{
 				Properties:      d.Data.Properties,
-				MaxLabel:        d.MaxLabel,
+				MaxLabel:        d.maxLabelCopy(),
 				MaxRepoLabel:    d.MaxRepoLabel,
 				NextLabel:       d.NextLabel,
 				IndexedLabels:   d.IndexedLabels,
@@ -2087,7 +2099,7 @@ func (d *Data) MarshalJSONExtents(ctx *datastore.VersionedCtx) ([]byte, error) {
 		d.Data.Data,
 		propsJSON{
 			Properties:      props,
-			MaxLabel:        d.MaxLabel,
+			MaxLabel:        d.maxLabelCopy(),
 			MaxRepoLabel:    d.MaxRepoLabel,
 			NextLabel:       d.NextLabel,
 			IndexedLabels:   d.IndexedLabels,
